@@ -16,10 +16,14 @@ package unique
 
 import (
 	"github.com/google/uuid"
+	"github.com/hyperjumptech/grule-rule-engine/pkg/simhook"
 )
 
 // NewID will create a new unique ID string for this runtime.
 // Uniqueness between system or apps is not necessary.
 func NewID() string {
+	if id, ok := simhook.NextID(); ok { // verif hook: never taken unless built with -tags verif
+		return id
+	}
 	return uuid.NewString()
 }
